@@ -26,6 +26,9 @@ struct Parts {
     registry: bool,
     awaiters: bool,
     late_ops: bool,
+    /// A and two healthy actors subscribe to a broker topic; a publication made after A's
+    /// failure - A's address still held - reaches both healthy ones
+    broker: bool,
 }
 
 struct S {
@@ -48,6 +51,8 @@ const OWNER: u8 = 3;
 const LATE: u8 = 4;
 const OUTSIDE: u8 = 5;
 const REG: u8 = 6;
+const PUB: u8 = 7;
+const TOPIC_MSG: u32 = 77;
 
 pub async fn registry_client(c: u8) {
     use futures::FutureExt as _;
@@ -81,6 +86,7 @@ impl Scene for S {
     fn pre(&self) {
         use futures::FutureExt as _;
         let _ = Addr::<Probe<0>>::unregister().now_or_never();
+        let _ = Addr::<hannibal::Broker<world::T1>>::unregister().now_or_never();
     }
 
     fn setup(&self, exec: &Exec) {
@@ -100,6 +106,9 @@ impl Scene for S {
             a_actions.push(Action::Interval { timer: 1, period: 1 });
             a_actions.push(Action::DelayedExec { timer: 2, delay: 3 });
             a_actions.push(Action::DelayedSend { timer: 3, delay: 4 });
+        }
+        if p.broker {
+            a_actions.push(Action::Subscribe { topic: 1 });
         }
         W.with(|w| w.borrow_mut().roles[0].started_actions = a_actions);
         let cfg = SpawnCfg {
@@ -167,6 +176,36 @@ impl Scene for S {
         }
         if p.registry {
             exec.spawn_client(REG, registry_client(REG));
+        }
+        if p.broker {
+            // two healthy subscribers (roles 1 and 2), and a publisher that keeps A's address
+            // (so that the broker cannot simply prune A) and publishes after A has failed
+            W.with(|w| {
+                let mut w = w.borrow_mut();
+                w.roles[1].started_actions = vec![Action::Subscribe { topic: 1 }];
+                w.roles[2].started_actions = vec![Action::Subscribe { topic: 1 }];
+            });
+            let s1 = spawn_probe(1, plain).detach();
+            let s2 = spawn_probe(2, plain).detach();
+            let held_a = a.clone();
+            exec.spawn_client(PUB, async move {
+                use futures::FutureExt as _;
+                world::log(Ev::Begin { c: PUB, i: 0 });
+                world::sleep(8).await;
+                world::log(Ev::End { c: PUB, i: 0, r: Res::Ok });
+                world::log(Ev::Begin { c: PUB, i: 1 });
+                let r = std::panic::AssertUnwindSafe(hannibal::Broker::<world::T1>::publish(world::T1(TOPIC_MSG))).catch_unwind().await;
+                let r = match r {
+                    Ok(Ok(())) => Res::Ok,
+                    Ok(Err(e)) => Res::Err(world::errkind(&e)),
+                    Err(_) => Res::Panicked,
+                };
+                world::log(Ev::End { c: PUB, i: 1, r });
+                world::log(Ev::Begin { c: PUB, i: 2 });
+                world::sleep(3).await;
+                drop((s1, s2, held_a));
+                world::log(Ev::End { c: PUB, i: 2, r: Res::Ok });
+            });
         }
         drop(a);
     }
@@ -237,6 +276,25 @@ impl Scene for S {
                 }
                 if o.c == OWNER && o.i <= 1 && matches!(o.res, Some(Res::Joined(_))) {
                     v("join-none", format!("C06/join-some-after-failure/cause={ck}"), "join returned A although it failed".into());
+                }
+            }
+        }
+        // --- a broker topic A was subscribed to still serves the healthy subscribers
+        if self.parts.broker {
+            if let Some(o) = an.op(PUB, 1) {
+                if o.begin > tidx {
+                    crate::check::oblige("bystander-unharmed");
+                    if o.end.is_some() && o.res != Some(Res::Ok) {
+                        v("bystander-unharmed", format!("C06/publish-fails-after-subscriber-failed/cause={ck}"), format!("publishing on a topic the failed actor was subscribed to returned {:?}", o.res));
+                    }
+                    if settled {
+                        for role in [1u8, 2] {
+                            let got = an.enters.iter().filter(|e| e.a == role && e.cb == (Cb::Topic { topic: 1, id: TOPIC_MSG })).count();
+                            if got != 1 {
+                                v("bystander-unharmed", format!("C06/healthy-subscriber-lost-publication/cause={ck}"), format!("healthy subscriber {role} handled the publication {got} time(s) after A (also subscribed, address still held) had failed"));
+                            }
+                        }
+                    }
                 }
             }
         }
@@ -365,15 +423,16 @@ fn base_cases(tier: Tier) -> Vec<Case> {
         ("registry", Parts { registry: true, ..Parts::default() }),
         ("timers+children", Parts { timers: true, children: true, ..Parts::default() }),
         ("bystander+registry", Parts { bystander: true, registry: true, ..Parts::default() }),
+        ("broker", Parts { broker: true, ..Parts::default() }),
     ];
-    let full = Parts { bystander: true, children: true, timers: true, registry: true, awaiters: true, late_ops: true };
+    let full = Parts { bystander: true, children: true, timers: true, registry: true, awaiters: true, late_ops: true, broker: false };
     let mbs: &[Mailbox] = if tier == Tier::Quick { &[Mailbox::U] } else { &[Mailbox::U, Mailbox::B(1)] };
     for cause in causes(tier) {
         for &mb in mbs {
             for (name, parts) in &subs {
                 // A is spawned after its children: its index among backend-spawned tasks
                 let a_index = if parts.children { 2 } else { 0 };
-                let big = matches!(*name, "timers+children" | "bystander+registry" | "awaiters+owner");
+                let big = matches!(*name, "timers+children" | "bystander+registry" | "awaiters+owner" | "broker");
                 v.push(Case {
                     desc: format!("containment sub={name} cause={cause:?} mailbox={}", mb.name()),
                     exec: ExecCfg { horizon: 30, cancel: if let Cause::Cancel(j) = cause { Some((a_index, j)) } else { None }, ..ExecCfg::default() },
